@@ -298,8 +298,8 @@ pub fn run(ctx: &Ctx) -> Finish {
             parameters: if i % 5 == 0 { Some(vec![(50, 1.0)]) } else { None },
             ..Default::default()
         };
-        let mut inst = inst;
-        inst.parameters = None; // "Drop previous parameters" is the documented behaviour of the conversion
+        // every fifth instance records the parameter values of an earlier instantiation (id 50, not a
+        // variable): the conversion drops them (documented), so the round trip still needs no parameter
         check_case(l, &Case::RoundTrip { inst });
     });
     Finish {
